@@ -9,6 +9,7 @@ import (
 	"math"
 	"os"
 	"path/filepath"
+	"runtime/debug"
 	"sort"
 	"testing"
 
@@ -524,6 +525,9 @@ func (r *vfTreeRun) apply(op *vfTreeOp) (err error) {
 func vfRunTreeCase(c *vfTreeCase, next func(r *vfTreeRun) *vfTreeOp) (*vfTreeRun, error) {
 	restore := vfSetPageSize(c.MaxKeys)
 	defer restore()
+	// a read or write through a node that points into a mapping that was moved by a file growth faults: make that a
+	// panic of this goroutine (reported as <id>/panic with the case saved) instead of the death of the test process
+	defer debug.SetPanicOnFault(debug.SetPanicOnFault(true))
 	r := &vfTreeRun{c: c, model: map[uint64]uint64{}, everUsed: map[uint64]struct{}{}}
 	if c.Persistent {
 		dir := os.Getenv("VERIF_WORKDIR")
